@@ -41,7 +41,7 @@ func init() {
 	}
 	Configs["text"] = Config{Name: "text", NoExtras: true, Props: append([]Prop{
 		{Name: "t", Type: models.IndexTypeText}, {Name: "n.t", Type: models.IndexTypeText}}, filt...)}
-	Configs["kitchen"] = Config{Name: "kitchen", Props: []Prop{
+	Configs["kitchen"] = Config{Name: "kitchen", BadTypes: true, Props: []Prop{
 		{Name: "i", Type: models.IndexTypeInteger},
 		{Name: "f", Type: models.IndexTypeFloat},
 		{Name: "s", Type: models.IndexTypeString, CS: false},
@@ -60,3 +60,6 @@ func (c Config) WithCache(size int64, tag string) Config {
 	c.Name = c.Name + "/" + tag
 	return c
 }
+
+// BaseName is the key of the configuration in Configs.
+func (c Config) BaseName() string { return c.Name }
